@@ -205,6 +205,24 @@ def patient_entity_new(given):
     return ev
 
 
+def patient_ctx_remove(which):
+    """Context states deleted in a context-state transaction of their own (entity interface: the state is taken out of the
+    entity and its handle is written). NOT in the event table: the library deletes the state without any report ("cannot be
+    communicated via notification"), so a consumer cannot follow - see DESIGN.md 8.6."""
+    def ev(p):
+        _need(p, PAT)
+        ent = p.mdib.entities.by_handle(PAT)
+        handles = sorted(ent.states)
+        if not handles:
+            raise Disabled('no patient state')
+        victims = handles[:1] if which == 'first' else handles
+        for h in victims:
+            ent.states.pop(h)
+        with p.mdib.context_state_transaction() as tr:
+            tr.write_entity(ent, victims)
+    return ev
+
+
 def patient_entity_remove(which):
     """Remove context states of the patient context by writing the entity without them in a descriptor transaction
     (the documented way to delete context states). which: 'first' | 'first-two' | 'all-but-last' | 'all'."""
